@@ -235,8 +235,8 @@ def check(col: Collector, tier: str):
 
     # ------------------------------------------------------------ R9 shared: Fill at the mainline scope, declared types registered as given
     from sa.props._tr import import_obligations
-    import_obligations(col, "C03.R9", "c01", lambda o: o.detail == "fill-at-the-mainline-scope",
-                       "Fill inside a column's own if/loop writes the row before the other columns are set")
+    from sa.props._tr import check_fill_scope
+    check_fill_scope(col, "C03.R9", repo)
     import_obligations(col, "C03.R9", "c10", lambda o: o.rule == "C10.R3" and "value-return" in o.detail,
                        "const or pointer qualifiers that leak into the registered type become the column's type")
     # ------------------------------------------------------------ R8 conditional is double
